@@ -8,6 +8,7 @@
  "defines": ["VERIF_HALLOC", "HTTP_N=32", "HTTP_BODYMAX=8", "VERIF_STRMAX=8"],
  "thorough_defines": ["HTTP_N=64"],
  "models": ["models/libc_string.c", "models/http_env.c"],
+"fallback_unwind": 8,
  "timeout": 600,
  "assumptions": ["reader window object <= HTTP_N bytes (object size only; the scan is closed by a loop contract), so the MAXHDR branch is not reachable in this group",
    "netbuf_read_peek/_wait: models/http_env.c; gotheaders, fail, die: replaced by their contracts (enforced in their own groups)"]
